@@ -709,7 +709,17 @@ class t2listing(object):
                 if exppos > 0:
                     endpos = exppos + 3
                     next_start = endpos + 1
-                else: raise Exception("Unable to parse table line:\n" + line)
+                else:
+                    # no exponent letter: either a three-digit exponent
+                    # (e.g. 0.123-105), or a fixed-point value directly
+                    # followed by the sign of the next value:
+                    signpos = [p for p in range(pstart, nextpt) if line[p] in '+-']
+                    if signpos:
+                        p = signpos[0]
+                        if line[p + 1: p + 4].isdigit() and p + 4 < nextpt:
+                            next_start = p + 4
+                        else: next_start = p
+                    else: raise Exception("Unable to parse table line:\n" + line)
             numpos.append(next_start)
         numpos.append(len(line))
         return numpos
